@@ -512,6 +512,14 @@ be replaced: Kuramoto-Sivashinsky `gradient_squared`, not the outer Laplacian -/
 theorem values_operator_sound_ks (ν : K) (lap lap2 g : Op ι K) (c : St ι K) :
     ksRate ν lap lap2 (constOp (g c)) c = ksRate ν lap lap2 g c := rfl
 
+/-- the INNER operator of the classes with nested operators is applied to the state itself and
+may be replaced by its measured values as well -/
+theorem values_operator_sound_inner (γ ν ε kc2 δ : K) (lap lap2 g : Op ι K) (c : St ι K) :
+    cahnHilliardRate γ (constOp (lap c)) lap2 c = cahnHilliardRate γ lap lap2 c ∧
+    ksRate ν (constOp (lap c)) lap2 g c = ksRate ν lap lap2 g c ∧
+    swiftHohenbergRate ε kc2 δ (constOp (lap c)) lap2 c = swiftHohenbergRate ε kc2 δ lap lap2 c :=
+  ⟨rfl, rfl, rfl⟩
+
 end
 
 section
@@ -632,6 +640,14 @@ example (T : FunTab ℚ) (L : Op Nat ℚ) (u v : St Nat ℚ) :
       rhsValueF T (fun f => if f = "laplace" then some L else none) [("u", u)] []
         (.call1 "laplace" (.var "u")) :=
   rhsValueF_unused_field T _ _ _ _ "v" v (by simp [symbols])
+
+/-- ... but NOT the outer one: it is applied to a derived field (`mu`, `laplace(c)`), so the values
+measured for the state are the wrong field (Cahn-Hilliard with the 2-cell operator `exA x + 3`) -/
+theorem values_operator_not_sound_outer :
+    cahnHilliardRate (1 : ℚ) (affineOp 2 exA exB) (constOp (affineOp 2 exA exB exC)) exC 0 ≠
+      cahnHilliardRate (1 : ℚ) (affineOp 2 exA exB) (affineOp 2 exA exB) exC 0 := by
+  simp [cahnHilliardRate, cahnHilliardMu, constOp, affineOp, exA, exB, exC, List.range, List.range.loop]
+  norm_num
 
 /-- with an offset `gradient_squared` is not homogeneous of degree two (the hypothesis of
 `sumSquares_homogeneous` is needed) -/
